@@ -207,8 +207,8 @@ def run(repo, tier):
                  'instruction; the region must lie inside the encoder\'s accepted set; label shift of exactly 2 on replacing paths; '
                  'encode-time re-validation of every masked operand; R-auipc; order of the two rounds.')
     rep.trusted_base = ['CPython ast', 'bbverif.comprel / pathwalk / bitdom', 'RVC oracle (decode + expansion table)']
-    rep.not_decided = ['a compressed form chosen on a label-dependent immediate whose value changes when labels move afterwards '
-                       '(with encode-time re-validation this surfaces as a refusal, C12, except for rules that drop the immediate)']
+    rep.not_decided = ['a compressed form that keeps its immediate but was chosen on a label-dependent value that changes when labels move '
+                       'afterwards (encode-time re-validation turns this into a refusal, see C12; rules that drop the immediate are decided by R4.8)']
     rel = CompRel(facts)
     rep.count('criteria rules', len(rel.rules))
     rep.count('predicate factories lifted', len(rel.factories))
@@ -225,7 +225,10 @@ def run(repo, tier):
     check_rounds(rep, facts, 'R4.6.rounds')
     from .. import labelrules as _LB
     _LB.check_live_env(rep, facts, 'R4.7.live-env')
+    from ..comprel import check_final_immediates
+    check_final_immediates(rep, rel, 'R4.8.final-immediate')
     rep.floor('criteria rules', 20)
     rep.floor('predicate factories lifted', 3)
     rep.floor('region tuples enumerated', 20000)
+    rep.floor('immediate-dropping rules', 2)
     return rep
